@@ -343,7 +343,7 @@ C06(g, ev, g2) ==
   << Cl("C06_a", ev.op \notin {"reset", "end"}, ev.res \notin {"HANG", "SPIN"}),
      Cl("C06_b", IsPickEv(ev) /\ ev.res = "BLOCKED",
                  IsRRBind(g, ev) /\ ~CtxEnded(Tick(g, ev), ev) /\ \E x \in Chans(g) : ~Ready(g, x)),
-     Cl("C06_d", ev.op \notin {"reset", "end"} /\ ev.res \notin {"PANIC", "HANG", "SPIN", "TIMEOUT"},
+     Cl("C06_d", ev.op \notin {"reset", "end"} /\ ev.res \notin {"PANIC", "HANG", "SPIN", "TIMEOUT", "SKIPPED"},
                  ev.probe = "OK") >>
 
 \* refresh rule evaluated on the ghost detector of the call's channel (pre-state g, time of the event)
